@@ -65,6 +65,7 @@ type Ctx struct {
 	seq       int
 	deadline  time.Time
 	lineHashQ chan uint64
+	lastCase  *os.File
 }
 
 // Exhausted reports whether the time budget of this shard is used up.
@@ -76,6 +77,11 @@ func (c *Ctx) Mine(i int) bool { return i%c.Shards == c.Shard }
 // Case runs the implementation on (op, input) and sends the case to the driver.
 func (c *Ctx) Case(op string, input string) {
 	in := strings.Fields(input)
+	if c.lastCase != nil { // so that a fatal (unrecoverable) crash leaves the failing input behind
+		rec := c.prop.ID + " " + op + " " + strings.Join(in, " ") + "\n"
+		c.lastCase.Truncate(0)
+		c.lastCase.WriteAt([]byte(rec), 0)
+	}
 	out := c.prop.Run(op, in)
 	line := c.prop.ID + " " + op + " " + strings.Join(in, " ") + " => " + out
 	h := fnv.New64a()
@@ -168,6 +174,7 @@ func main() {
 		only    = flag.String("emit", "", "write case lines to this file instead of piping to the driver")
 		stale   = flag.Bool("stale", false, "model signature mismatch: widen generators")
 		listOps = flag.Bool("list", false, "list registered properties")
+		lastFile = flag.String("last", "", "file that always holds the case being executed (survives a fatal crash)")
 	)
 	flag.Parse()
 	if *listOps {
@@ -206,6 +213,12 @@ func main() {
 		*secs = 3600
 	}
 	c.deadline = t0.Add(time.Duration(*secs) * time.Second)
+	if *lastFile != "" {
+		if f, err := os.Create(*lastFile); err == nil {
+			c.lastCase = f
+			defer func() { f.Close(); os.Remove(*lastFile) }()
+		}
+	}
 
 	var cmd *exec.Cmd
 	var drvStdin io.WriteCloser
